@@ -20,6 +20,7 @@ import (
 	"testing/synctest"
 	"time"
 
+	"github.com/openconfig/gnmi/zzverif/simlog"
 	"github.com/openconfig/gnmi/zzverif/simrt"
 )
 
@@ -151,6 +152,14 @@ func normPanic(v string) string {
 // RunOne executes one scenario in a fresh bubble.
 func RunOne(t *testing.T, h Harness, prop, tier string, sc any, cfg simrt.Config, seed uint64, replay *simrt.TapeSet, trace bool) (res *Result) {
 	res = &Result{Strategy: cfg.Strategy, Faults: map[string]int64{}, Probes: map[string]int64{}}
+	// Hostile-peer runs (C12): a third of them with verbose logging on (-v=2), so
+	// that the code which formats a peer's messages only for the log runs too.
+	// A function of the property and the seed: replays reproduce it.
+	simlog.Verbosity = 0
+	if prop == "C12" && seed%3 == 0 {
+		simlog.Verbosity = 2
+	}
+	defer func() { simlog.Verbosity = 0 }()
 	raceBefore := simrt.RaceErrors()
 	var xx *Exec
 	defer func() {
@@ -289,6 +298,9 @@ func runBubble(t *testing.T, h Harness, prop, tier string, sc any, cfg simrt.Con
 			}
 			res.Viol = x.Viol
 			res.Faults = x.Faults
+			if simlog.Verbosity > 0 {
+				res.Faults["verbose-logging-on"]++
+			}
 			res.Probes = x.Probes
 			res.NonTrivial = x.NonTrivial
 			res.Obligations = x.Obligations
